@@ -25,26 +25,56 @@
 #include "mir-alloc.h"
 #include "mir-htab.h"
 
-/* ------------------------------------------------------------ allocator: malloc + poison of fresh bytes */
+/* ------------------------------------------------------------ allocator with a size ledger
+   Every block carries a 16-byte header {size, magic}.  realloc is the documented custom-allocator
+   shape (CUSTOM-ALLOCATORS.md): it trusts `old_size` — malloc + memcpy (old_size) + free — so a wrong
+   old size passed by the VARR code loses or over-reads contents; additionally old_size is checked
+   against the ledger (ALLOCBAD, exit 10).  Fresh bytes are poisoned with 0xA5. */
+#define P_MAGIC 0x5ca1ab1e0ddba11ull
+typedef struct {
+  uint64_t size, magic;
+} p_hdr_t;
+static void allocbad (const char *what, size_t got, size_t ledger) {
+  char buf[128];
+  int n = snprintf (buf, sizeof (buf), "ALLOCBAD %s got=%zu ledger=%zu\n", what, got, ledger);
+  fflush (stdout);
+  if (n > 0 && write (1, buf, (size_t) n) < 0) _exit (10);
+  _exit (10);
+}
 static void *p_malloc (size_t size, void *ud) {
-  void *p = malloc (size);
+  p_hdr_t *h = (p_hdr_t *) malloc (sizeof (p_hdr_t) + size);
   (void) ud;
-  if (p != NULL) memset (p, 0xA5, size);
-  return p;
+  if (h == NULL) return NULL;
+  h->size = size;
+  h->magic = P_MAGIC;
+  memset (h + 1, 0xA5, size);
+  return h + 1;
 }
 static void *p_calloc (size_t n, size_t s, void *ud) {
-  (void) ud;
-  return calloc (n, s);
-}
-static void *p_realloc (void *ptr, size_t old_size, size_t new_size, void *ud) {
-  void *p = realloc (ptr, new_size);
-  (void) ud;
-  if (p != NULL && new_size > old_size) memset ((char *) p + old_size, 0xA5, new_size - old_size);
+  void *p = p_malloc (n * s, ud);
+  if (p != NULL) memset (p, 0, n * s);
   return p;
 }
 static void p_free (void *ptr, void *ud) {
+  p_hdr_t *h;
   (void) ud;
-  free (ptr);
+  if (ptr == NULL) return;
+  h = (p_hdr_t *) ptr - 1;
+  if (h->magic != P_MAGIC) allocbad ("free-of-foreign-block", 0, 0);
+  h->magic = 0;
+  free (h);
+}
+static void *p_realloc (void *ptr, size_t old_size, size_t new_size, void *ud) {
+  void *p;
+  if (ptr == NULL) return p_malloc (new_size, ud);
+  p_hdr_t *h = (p_hdr_t *) ptr - 1;
+  if (h->magic != P_MAGIC) allocbad ("realloc-of-foreign-block", old_size, 0);
+  if (h->size != old_size) allocbad ("realloc-old-size", old_size, (size_t) h->size);
+  p = p_malloc (new_size, ud);
+  if (p == NULL) return NULL;
+  memcpy (p, ptr, old_size < new_size ? old_size : new_size);
+  p_free (ptr, ud);
+  return p;
 }
 static struct MIR_alloc p_alloc = {p_malloc, p_calloc, p_realloc, p_free, NULL};
 
